@@ -367,7 +367,7 @@ func (c *replacerCompiler) compileImport(imp *ast.ImportSpec) ImportReplacer {
 
 // Replace adds a single import. Returns the name of the import that was
 // added.
-func (r ImportReplacer) Replace(d data.Data, cl Changelog, f *ast.File) (string, error) {
+func (r ImportReplacer) Replace(d data.Data, cl Changelog, f *ast.File) (addedImport, error) {
 	// name is the name we want to use for the named import, and pkgName is
 	// how the rest of the file references this import.
 	var name, pkgName string
@@ -391,7 +391,7 @@ func (r ImportReplacer) Replace(d data.Data, cl Changelog, f *ast.File) (string,
 		if !mdata.Unnamed {
 			namev, err := r.Name.Replace(d, cl, f.Pos()) // pos is irrelevant
 			if err != nil {
-				return "", err
+				return addedImport{}, err
 			}
 			name = namev.Interface().(*ast.Ident).Name
 			pkgName = name
@@ -420,12 +420,25 @@ func (r ImportReplacer) Replace(d data.Data, cl Changelog, f *ast.File) (string,
 	}
 
 	if !astutil.AddNamedImport(r.Fset, f, name, r.Path) {
-		return "", nil
+		// The file has this very import already. The patch asks for
+		// it all the same.
+		return addedImport{Name: name, Path: r.Path}, nil
 	}
 	if first != nil && first.Lparen.IsValid() && !first.Rparen.IsValid() {
 		first.Rparen = firstEnd
 	}
-	return pkgName, nil
+	return addedImport{Name: name, Path: r.Path, PkgName: pkgName}, nil
+}
+
+// addedImport is an import that the "+" side of a patch asks for.
+type addedImport struct {
+	Name string // name in the import declaration, if any
+	Path string
+
+	// Name by which the code refers to the import, if the import was
+	// added to the file: whatever the file imported under that name before
+	// is replaced by it.
+	PkgName string
 }
 
 // ImportsReplacer replaces a block of imports.
@@ -449,33 +462,34 @@ func (c *replacerCompiler) compileImports(imps []*ast.ImportSpec) ImportsReplace
 // Replace adds zero or more imports t a file.
 //
 // Returns a list of the names of the imports that were added, if known.
-func (r ImportsReplacer) Replace(d data.Data, cl Changelog, f *ast.File) ([]string, error) {
-	var names []string
+func (r ImportsReplacer) Replace(d data.Data, cl Changelog, f *ast.File) ([]addedImport, error) {
+	var added []addedImport
 	for _, imp := range r.Imports {
-		name, err := imp.Replace(d, cl, f)
+		a, err := imp.Replace(d, cl, f)
 		if err != nil {
 			return nil, err
 		}
-
-		if len(name) > 0 {
-			names = append(names, name)
-		}
+		added = append(added, a)
 	}
 
-	return names, nil
+	return added, nil
 }
 
-// Cleanup cleans up unused imports. newNames is a list of names of imports
-// that were added by the plus sections.
-func (r ImportsReplacer) Cleanup(d data.Data, f *ast.File, newNames []string) error {
+// Cleanup cleans up unused imports. added lists the imports that the plus
+// section asks for.
+func (r ImportsReplacer) Cleanup(d data.Data, f *ast.File, added []addedImport) error {
 	var impData importsData
 	if !data.Lookup(d, importsKey, &impData) {
 		return nil
 	}
 
 	taken := make(map[string]struct{})
-	for _, n := range newNames {
-		taken[n] = struct{}{}
+	wanted := make(map[addedImport]struct{})
+	for _, a := range added {
+		if len(a.PkgName) > 0 {
+			taken[a.PkgName] = struct{}{}
+		}
+		wanted[addedImport{Name: a.Name, Path: a.Path}] = struct{}{}
 	}
 
 	// Delete matched imports that are no longer used.
@@ -505,6 +519,13 @@ func (r ImportsReplacer) Cleanup(d data.Data, f *ast.File, newNames []string) er
 
 		if len(pkgName) == 0 {
 			pkgName = filepath.Base(imp)
+		}
+
+		// The matched import may be one that the plus section asks
+		// for, in so many words or because a metavariable stands for
+		// its name: "-import x" and "+import _" on a blank import.
+		if _, ok := wanted[addedImport{Name: importName, Path: imp}]; ok {
+			continue
 		}
 
 		// If this import was replaced by an added import, kill it.
